@@ -98,7 +98,8 @@ for _p, _r, _k in [
         ('C09', 'C09.T1', 'compile/ts:failed-pairing:return/in-failed/after-partial-file'),
         ('C10', 'C10.T1', 'compile/ts:fresh:return/status/after-partial-file'),
         ('C19', 'C19.T1', 'compile/ts:borrow-failed-only:store@module-text-record/after-partial-file'),
-        ('C20', 'C20.T1', 'compile/ts:status-effect:return/written/after-partial-file')]:
+        ('C20', 'C20.T1', 'compile/ts:status-effect:return/written/after-partial-file'),
+        ('C20', 'C20.T1', 'compile/ts:failed-pairing:return/in-failed/after-partial-file')]:
     OPEN.append((_p, _r, _k, F44, F44_W))
 
 # (property, commit, what failed, rule that reports it on the pre-fix tree)
